@@ -308,9 +308,130 @@ def removal_sources(prog, R, sl):
     return out
 
 
+ADAPTORS = {"collect", "map", "into_iter", "iter", "cloned", "copied", "filter_map", "flat_map", "flatten", "chain", "rev", "into_message", "clone", "to_vec",
+            "unwrap_or_default", "unwrap_or", "unwrap_or_else", "from", "into", "extend", "drain", "by_ref", "take", "skip", "peekable", "fuse", "inspect", "enumerate",
+            "from_iter", "into_boxed_slice", "into_vec", "as_slice", "deref", "borrow", "as_ref"}
+
+
+def value_origins(prog, bid, operand, depth=0, seen=None):
+    """the calls whose *result* the value is made of, followed through iterator adaptors, `?`, Option / Result payloads, the
+    return value of local functions and the elements pushed into a vector built in place: [(body, bb, callee target)] ;
+    ("param", body, n) for a parameter; None in the list when something could not be followed"""
+    seen = seen if seen is not None else set()
+    bi = prog.info(bid)
+    out = []
+    if bi is None or operand is None or depth > 8:
+        return [None]
+    if getattr(operand, "place", operand) is None:
+        return []
+    o = bi.trace(operand)
+    key = (bid, o.kind, repr(o.data))
+    if key in seen:
+        return []
+    seen.add(key)
+    if o.kind == "param":
+        return [("param", bid, o.data)]
+    if o.kind == "call":
+        t = bi.call_at(o.data)
+        if t is None or t.callee is None:
+            return [None]
+        name = t.callee.path.split("::")[-1]
+        tgt = prog.qual(bi.body, t.callee.target)
+        fb = prog.facts.body(tgt)
+        if name in ("new", "with_capacity", "default") and ("Vec" in t.callee.path or "VecDeque" in t.callee.path) and t.dest is not None and t.dest.is_local():
+            # a vector built in place: what is pushed / extended into it
+            fed = False
+            for bb2, t2 in bi.calls(lambda c: c.path.split("::")[-1] in ("push", "push_back", "extend", "append", "insert") and ("Vec" in c.path or "VecDeque" in c.path or "Extend" in c.path)):
+                r = bi.trace(t2.args[0]) if t2.args else None
+                if r is not None and r.kind == "call" and r.data == o.data and len(t2.args) > 1:
+                    fed = True
+                    out += value_origins(prog, bid, t2.args[-1], depth + 1, seen)
+            return out if fed else [None]
+        if fb is not None and fb.crate == "lib" and not fb.coroutine and name not in ADAPTORS:
+            if tgt in seen:
+                return []
+            # a local function: what its return value is made of -- unless it is itself a source the caller asks about
+            return [(bid, o.data, tgt)]
+        if name in ADAPTORS and t.args:
+            for a in (t.args[:2] if name in ("chain", "extend") else t.args[:1]):
+                out += value_origins(prog, bid, a, depth + 1, seen)
+            return out
+        return [(bid, o.data, tgt)]
+    if o.kind == "agg":
+        ag = bi.agg_at(o.data)
+        for op in ag.ops:
+            if op.place is not None:
+                out += value_origins(prog, bid, op, depth + 1, seen)
+        return out or [None]
+    if o.kind == "local" and isinstance(o.data, int):
+        defs = bi.defs.get(o.data, [])
+        for (db, di) in defs:
+            if di >= 0:
+                st = bi.stmt(db, di)
+                for x in st.rv.ops:
+                    if x.place is not None:
+                        out += value_origins(prog, bid, x, depth + 1, seen)
+            else:
+                t = bi.call_at(db)
+                if t is not None and t.dest is not None:
+                    out += value_origins(prog, bid, t.dest, depth + 1, seen) if False else [(bid, db, prog.qual(bi.body, t.callee.target) if t.callee is not None else None)]
+        return out or [None]
+    return [None]
+
+
+def made_of_removals(prog, bid, operand, sources, depth=0, seen_fn=None):
+    """True: every origin of the value is the result of a removal source; False: some origin is the result of something else that
+    could be followed to the end; None: could not be followed"""
+    seen_fn = seen_fn if seen_fn is not None else set()
+    origins = value_origins(prog, bid, operand)
+    verdicts = []
+    for og in origins:
+        if og is None:
+            verdicts.append(None)
+        elif og[0] == "param":
+            verdicts.append(None)
+        else:
+            cb, cbb, tgt = og
+            if tgt in sources:
+                verdicts.append(True)
+                continue
+            fb = prog.facts.body(tgt) if tgt else None
+            if fb is None or fb.crate != "lib" or depth > 4 or tgt in seen_fn:
+                verdicts.append(False if fb is None and tgt and not str(tgt).startswith("crate::") else None)
+                continue
+            seen_fn.add(tgt)
+            # the callee's return value
+            fi = prog.info(tgt)
+            from mir import Operand
+            rets = []
+            for (db, di) in fi.defs.get(0, []):
+                if di >= 0:
+                    st = fi.stmt(db, di)
+                    rets += [x for x in st.rv.ops if x.place is not None]
+                else:
+                    t = fi.call_at(db)
+                    if t is not None and t.callee is not None:
+                        q = prog.qual(fi.body, t.callee.target)
+                        verdicts.append(True if q in sources else None)
+            for x in rets:
+                verdicts.append(made_of_removals(prog, tgt, x, sources, depth + 1, seen_fn))
+    if not verdicts:
+        return None
+    if any(v is False for v in verdicts):
+        return False
+    if all(v is True for v in verdicts):
+        return True
+    return None
+
+
 def backlog_source(prog, R, sl, bid, operand, sources, post_targets, depth=0):
     """where does a value appended to the backlog come from?  ('post' | 'removal' | None, explanation)"""
     s = sl.of(bid, operand)
+    precise = made_of_removals(prog, bid, operand, sources) if depth == 0 else None
+    if precise is False and (s.calls & sources):
+        # the whole-body slice reaches a removal (a callee sweeps the tracker on the side), but the value that is appended is made
+        # of something else (the deliveries a pull just handed out): following the value decides
+        return None, "the value appended is the result of something that is not a tracker removal (a removal only happens elsewhere in the callee)"
     if s.calls & sources:
         return "removal", "derived from %s" % sorted(prog.short(c) for c in s.calls & sources)[0]
     own = [r for r in s.roots if r[0] == "param" and r[1] == bid]
